@@ -16,11 +16,18 @@ Inductive spec :=
 | SList (p : Z) (cs : list spec)   (* returns [p, [call c for c in cs]]: all children in parallel *)
 | SSeq (cs : list spec)            (* returns seq([...]): one child after the other *)
 | SCatch (c : spec)                (* returns catch(call c, ValueError, recover) *)
-| SAll (cs : list spec).           (* returns catch_all([...]): all children in parallel, every one is awaited,
+| SAll (cs : list spec)            (* returns catch_all([...]): all children in parallel, every one is awaited,
                                       then the first error BY POSITION is re-raised *)
+| SAllRec (cs : list spec).        (* returns catch_all([...], ValueError, recover_all): as above, but when any term failed
+                                      the recover task receives every term's value or error and its result is returned *)
 
 Definition children (s : spec) : list spec :=
-  match s with SList _ cs | SSeq cs | SAll cs => cs | SCatch c => [c] | _ => [] end.
+  match s with SList _ cs | SSeq cs | SAll cs | SAllRec cs => cs | SCatch c => [c] | _ => [] end.
+
+(** what recover_all makes of one term: ["val", v] / ["err", e], encoded as [0; v] / [1; e] *)
+Definition enc (o : outcome) : val :=
+  match o with Ok v => VList [VInt 0; v] | Ko e => VList [VInt 1; VInt e] end.
+Definition rec_value (outs : list outcome) : val := VList [VInt (-1); VList (map enc outs)].
 
 (** * Reference semantics: admissible outcomes.  A list with several failing children may surface
     any of their errors (the first rejection observed depends on the schedule). *)
@@ -36,7 +43,10 @@ Inductive adm : spec -> outcome -> Prop :=
 | adm_catch_ko c e : adm c (Ko e) -> adm (SCatch c) (Ok (VRec e))
 | adm_all_ok cs vs : Forall2 (fun c v => adm c (Ok v)) cs vs -> adm (SAll cs) (Ok (VList vs))
 | adm_all_ko cs pre c post vs e :
-    cs = pre ++ c :: post -> Forall2 (fun c v => adm c (Ok v)) pre vs -> adm c (Ko e) -> adm (SAll cs) (Ko e).
+    cs = pre ++ c :: post -> Forall2 (fun c v => adm c (Ok v)) pre vs -> adm c (Ko e) -> adm (SAll cs) (Ko e)
+| adm_allrec_ok cs vs : Forall2 (fun c v => adm c (Ok v)) cs vs -> adm (SAllRec cs) (Ok (VList vs))
+| adm_allrec_rec cs outs e :
+    Forall2 (fun c o => adm c o) cs outs -> In (Ko e) outs -> adm (SAllRec cs) (Ok (rec_value outs)).
 
 (** * The machine *)
 Inductive phase := PIdle | PRun | PEval | PDone (o : outcome).
@@ -51,6 +61,8 @@ Definition kid_ko (n : node) : option Z := match nphase n with PDone (Ko e) => S
 Definition kid_ok (n : node) : option val := match nphase n with PDone (Ok v) => Some v | _ => None end.
 
 Definition kid_done (n : node) : bool := match nphase n with PDone _ => true | _ => false end.
+
+Definition kid_out (n : node) : outcome := match nphase n with PDone o => o | _ => Ok (VInt 0) end.
 
 Fixpoint first_ko (kids : list node) : option Z :=
   match kids with
@@ -100,6 +112,13 @@ Definition recombine (n : node) : node :=
                       end
             end
           else n
+      | SAllRec _ =>
+          if forallb kid_done kids then
+            match all_ok kids with
+            | Some vs => Node sp (PDone (Ok (VList vs))) kids
+            | None => Node sp (PDone (Ok (rec_value (map kid_out kids)))) kids     (* recover_all(values and errors) *)
+            end
+          else n
       | SCatch _ =>
           match kids with
           | [k] => match nphase k with
@@ -127,7 +146,7 @@ Definition do_finish (n : node) : node :=
       | SList _ cs => recombine (Node sp PEval (map idle cs))
       | SSeq cs => recombine (Node sp PEval [])
       | SCatch c => Node sp PEval [idle c]
-      | SAll cs => recombine (Node sp PEval (map idle cs))
+      | SAll cs | SAllRec cs => recombine (Node sp PEval (map idle cs))
       end
   | _ => n
   end.
@@ -161,7 +180,7 @@ Definition result (n : node) : option outcome := match nphase n with PDone o => 
 (** * Measures for termination: every call starts once and finishes once *)
 Fixpoint ssize (s : spec) : nat :=
   S (match s with
-     | SList _ cs | SSeq cs | SAll cs => fold_right (fun c a => ssize c + a) 0 cs
+     | SList _ cs | SSeq cs | SAll cs | SAllRec cs => fold_right (fun c a => ssize c + a) 0 cs
      | SCatch c => ssize c
      | _ => 0
      end).
@@ -173,7 +192,7 @@ Fixpoint fails (s : spec) : bool :=
   | SLeaf _ => false
   | SRaise _ => true
   | SList _ cs | SSeq cs | SAll cs => (fix ex (cs : list spec) : bool := match cs with [] => false | c :: r => fails c || ex r end) cs
-  | SCatch _ => false
+  | SCatch _ | SAllRec _ => false
   end.
 
 Fixpoint admb (s : spec) (o : outcome) {struct s} : bool :=
@@ -210,5 +229,31 @@ Fixpoint admb (s : spec) (o : outcome) {struct s} : bool :=
       match o with
       | Ok v => admb c (Ok v) || match v with VRec e => admb c (Ko e) | _ => false end
       | Ko _ => false
+      end
+  | SAllRec cs =>
+      match o with
+      | Ok (VList vs) =>
+          (fix go (cs : list spec) (vs : list val) : bool :=
+             match cs, vs with
+             | [], [] => true
+             | c :: cs', v :: vs' => admb c (Ok v) && go cs' vs'
+             | _, _ => false
+             end) cs vs
+          || match vs with
+             | [VInt m; VList encs] =>
+                 Z.eqb m (-1) &&
+                 (fix rg (cs : list spec) (encs : list val) : bool :=
+                    match cs, encs with
+                    | [], [] => true
+                    | c :: cs', VList [VInt t; x] :: r =>
+                        (if Z.eqb t 0 then admb c (Ok x)
+                         else if Z.eqb t 1 then match x with VInt e => admb c (Ko e) | _ => false end
+                         else false) && rg cs' r
+                    | _, _ => false
+                    end) cs encs &&
+                 existsb (fun x => match x with VList [VInt t; VInt _] => Z.eqb t 1 | _ => false end) encs
+             | _ => false
+             end
+      | _ => false
       end
   end.
